@@ -30,6 +30,7 @@ def sh(cmd, **kw):
 def ingest(sid, prop, wt):
     d = os.path.join(SEEDED, sid)
     os.makedirs(d, exist_ok=True)
+    sh(["git", "-C", wt, "add", "-N", "edgegraph"])          # so that new files are part of the diff
     diff = sh(["git", "-C", wt, "diff", "--", "edgegraph"]).stdout
     if not diff.strip():
         sys.exit("no diff under edgegraph/ in " + wt)
@@ -145,8 +146,13 @@ def main():
     elif a[0] == "runall":
         tier = a[1] if len(a) > 1 else "quick"
         for sid in sorted(os.listdir(SEEDED)):
+            if len(a) > 2 and sid < a[2]:
+                continue                      # runall <tier> <first-id>: resume a sweep
             if os.path.exists(os.path.join(SEEDED, sid, "meta.json")):
-                run(sid, tier)
+                try:
+                    run(sid, tier)
+                except SystemExit as e:       # e.g. a patch that no longer applies: report, go on
+                    print(f"{sid:28s} NOT-RUN {e}")
 
 
 if __name__ == "__main__":
